@@ -10,6 +10,8 @@ From PdfV Require Import Base.Prelude Gen.Generated Lex.Lexer Codec.Model Safety
 Definition U64 : N := 18446744073709551616.
 Definition U32 : N := 4294967296.
 Definition ISIZE_MAX : N := 9223372036854775807.
+(* a loop of more than 2^27 steps is not followed further by the models: they stop and report the cost *)
+Definition HUGE : N := 134217728.
 Definition E_NUM : N := 30.      (* an error value (bail!, try_opt!, Bounds, …) *)
 Definition E_PS : N := 31.       (* PdfError::PostScriptExec / PostScriptParse *)
 Definition E_OOB : N := 32.      (* PageOutOfBounds / ObjStmOutOfBounds *)
@@ -200,7 +202,9 @@ Fixpoint widths_go (items : list witem) (sets top : N) : res (N * N) :=
         match t' with
         | WInt _ :: t'' =>                                (* try_opt!(iter.next()).as_number()? *)
             let c2' := as_usize c2 in                     (* c2 as usize *)
-            if c1 <=? c2' then widths_go t'' (sets + (c2' - c1 + 1)) (N.max top (c2' + 1))   (* for c in c1 ..= c2 *)
+            if c1 <=? c2' then                                                               (* for c in c1 ..= c2 *)
+              if HUGE <? c2' - c1 + 1 then Ok (sets + (c2' - c1 + 1), N.max top (c2' + 1))   (* not waited for: the cost is reported *)
+              else widths_go t'' (sets + (c2' - c1 + 1)) (N.max top (c2' + 1))
             else widths_go t'' sets top
         | _ => Err E_NUM
         end
